@@ -16,7 +16,8 @@ CLAIMS = {
  'C07': ('K', 'model_checking', "Order/equality(/hash) laws proved per pair of value kinds with fully symbolic payloads (all 64/128-bit integers, all non-NaN floats, 2-byte strings, none/undefined/bool), exact int/float comparison kernels proved against an integer reference for ALL finite f64 x ALL i128/u128. Collection filters (sort/unique/groupby...) rest on these laws plus std's algorithms and are outside; bool-vs-number equality/order disagreement is a recorded known finding.", "pairs not triples in the quick tier; objects, sequences and maps as compared values outside; hash law only where the hash harness finishes (I64, bool, none, strings)"),
  'C08': ('K', 'model_checking', "For every listed pair of integer representations and fully symbolic payloads, + - * // % ** and unary minus return the mathematically exact result (sign+u128 magnitude reference) or an error, an error only when an operand or the result leaves [-2^127, 2^127); Euclidean convention checked against i128::div_euclid/rem_euclid and by multiplication on all i8 pairs; int/float comparison exact at kernel and Value level. Float // and % are outside (SAT does not finish).", "128x128-bit multiplication and U128 additions only in the thorough tier; pow only for exponents 2 and 3; literal lexing trusted"),
  'C09': ('K', 'model_checking', "Index selection of slices equals CPython's PySlice_AdjustIndices for len <= 6 and ANY i64 start/stop/step (forward via get_offset_and_len + the meaning of skip/take/step_by, backward via range_step_backwards), subscripts on strings/bytes follow Python for ANY i64 index. Kind preservation of ops::slice's dispatcher is read, not proved.", "len <= 6; step == i64::MIN only through unsigned_abs at the call sites (read); tuples/lists/iterables share the same two kernels"),
- 'C11': ('K', 'model_checking', "One inductive step of the depth accounting from an arbitrary state: depth never exceeds the configured limit (<= 500 for any requested limit), a refused increment leaves the state unchanged. That the limit is low enough for the native stack (engine S, measured costs) is reported separately when that engine is registered.", "push_frame's 6-line wrapper around check_depth is read; native stack consumption is not modelled by CBMC"),
+ 'C11': ('K', 'model_checking', "One inductive step of the depth accounting from an arbitrary state: depth never exceeds the configured limit (<= 500 for any requested limit), a refused increment leaves the state unchanged. Engine S then decides with z3, over ALL mixtures of recursion edges and limits 1..500, whether the limit is low enough for a 2 MiB native stack, from per-level costs measured on the real dev and release builds on every run; the dev-profile block-call overflow it finds is replayed (child process aborts) and is a recorded known finding, and a second query with that edge excluded must be unsat.", "push_frame's 6-line wrapper around check_depth is read; engine S measures stack costs (it does not execute them symbolically), assumes additivity (checked at limits 100 and 500) and a 96 KiB base / 64 KiB guard"),
+ 'C14': ('K', 'model_checking', "Location kernels: Tokenizer::advance moves the line by exactly the number of newlines and the column by characters from ANY (line, column) with saturation at 65535 (the kernel of 'inserting N lines shifts the reported line by N'), and a syntax error can be built at ANY tokenizer position without overflow (found and repaired: column >= 65535 panicked).", "span expansion in the parser, process_err attachment, the instruction->line side tables and error formatting are outside; advance is checked on four fixed texts (plain, multi-byte, two newlines, CRLF) from symbolic positions"),
  'C12': ('K', 'model_checking', "The documented matrix cell by cell and monotonicity along Strict >= SemiStrict >= Lenient >= Chainable for the UndefinedBehavior helpers every use site consults, over 4 modes x {undefined, silent undefined, none, false, 0, ''}.", "that each of the ~60 VM/filter sites calls the right helper is a whole-render fact outside the claim"),
  'C13': ('K', 'model_checking', "FuelTracker for EVERY u64 budget and every sequence of up to 5 zero/unit-cost instructions: threshold behaviour, monotone in the budget, consumed+remaining == budget, once out of fuel always out of fuel; charge is 0 or 1 per instruction shape.", "that eval_impl charges each instruction exactly once and that nested evaluations share the tracker is read, not proved"),
  'C20': ('K', 'model_checking', "Sequentialised schedules (acquirers are serialised by the cached_env mutex, a request is one atomic step): the first acquire with a symbolic request arriving during the rebuild (issued inside the creator) keeps that request pending and creates exactly once; one acquire from the pre-state 'environment cached' without a request does not call the creator. Re-creation / fast-reload steps (which drop or clear an Environment) only in the thorough tier.", "Kani executes no threads: interleavings finer than the reloader's lock acquisitions (e.g. a requester racing for the notifier lock) are outside; two concurrent acquirers are serialised by the mutex the code holds (read)"),
@@ -28,8 +29,7 @@ NA = {
  'C16': "generic serde Serializer/Deserializer recursion monomorphised per user type plus serde_json/ryu float printing: not encodable within the caps; no isolated kernel states a clause of the property",
 }
 PENDING = {
- 'C10': "lexer kernel harnesses not registered yet in this commit",
- 'C14': "location kernel harnesses not registered yet in this commit",
+ 'C10': "the tokenizer does not get through CBMC on even 3 symbolic bytes (str pattern API, measured) and the byte-level kernels that do (Whitespace::from_byte) state no clause of the property on their own; Aho-Corasick delimiter search is third-party automaton code",
  'C17': "safe_join harness does not finish within caps yet (str::split on symbolic bytes); see DESIGN.md",
 }
 
@@ -61,6 +61,7 @@ def main():
         },
         'engines': [
             {'name': 'K', 'path': '/verif/bin/kanilib.py', 'serves_properties': sorted(k for k, v in CLAIMS.items() if v[0] == 'K'), 'kind_free_text': K},
+            {'name': 'S', 'path': '/verif/stack/engine_s.py', 'serves_properties': ['C11'], 'kind_free_text': 'native stack/limit cost measurement on the real builds + z3 integer-linear query over edge mixtures, replay on a 2 MiB thread'},
             {'name': 'B', 'path': '/verif/bytecode/engine_b.py', 'serves_properties': ['C05', 'C18'], 'kind_free_text': B},
         ],
         'checks': checks,
